@@ -485,7 +485,7 @@ def group_of(case):
     return "/".join(case.tag.split("/")[:2])
 
 
-CLAIMED = True
+CLAIMED = False  # temporarily: variant/optional assignment model must be reconciled with the C07 follow-up fixes on main
 TECHNIQUE = ("Lean 4 proof: slot-state machine (dead / live / moved-from per storage slot, typed by alternative) whose events "
              "are the special member calls the source performs; owner invariants and absence of every illegal transition by "
              "induction over histories; model tied to the code by an instrumented element type whose address registry and "
